@@ -165,7 +165,8 @@ IsInsert == kind = "op" /\ lastop.op = "insert"
 Batch == lastop.blocks
 \* the parent is stored with its total difficulty - and, as in Chain.tla's ImportBlock, the grandparent's header, which the
 \* difficulty rule reads: after a rewind a block of a side branch can outlive its own parent ("nil grandparent")
-ParentKnown == /\ T.parent[Batch[1]] \in Oprev.hasBody /\ T.parent[Batch[1]] \in DOMAIN Oprev.td
+ParentKnown == /\ Len(Batch) > 0
+               /\ T.parent[Batch[1]] \in Oprev.hasBody /\ T.parent[Batch[1]] \in DOMAIN Oprev.td
                /\ (T.num[Batch[1]] >= 2 => T.parent[T.parent[Batch[1]]] \in Oprev.hasHeader)
 
 \* "a block assembled by the node's own block-building path is accepted by its own import path"
